@@ -7,6 +7,7 @@ import os
 import re
 
 import vcommon as V
+import rdftx_common
 
 SPECDIR = os.path.join(V.SPEC, "txn")
 TRACE = os.path.join(SPECDIR, "Trace_Mvcc.tla")
@@ -193,6 +194,9 @@ def run(prop, tier, seed):
     if batch:
         validate(rep, batch, cfg_t, wd, f"{prop}-B{n}", "binding B (recorded history)", stats)
 
+    # ------------------------------------------------------------ 6. triples under transactions (RdfTx.tla)
+    rdftx_common.section(rep, prop, tier, seed)
+
     states += stats["events"]
     trans += stats["events"]
     rep.add(states=states, transitions=trans, model_checking=mcs,
@@ -213,6 +217,8 @@ def run(prop, tier, seed):
 def replay(path):
     wd = V.workdir("replay-mvcc")
     obj = json.load(open(path))
+    if obj["replay"].get("engine") == "rdftx":
+        return rdftx_common.replay(obj, path)
     ev = run_scripts([obj["replay"]["script"]], wd, "replay")
     p = os.path.join(wd, "t.ndjson")
     V.write_ndjson(p, ev)
